@@ -348,6 +348,10 @@ func c10Run(x *mc.X, hist c10Hist, logger string, replay []int, record *[]int) (
 			x.Failf("the origin's 304 to the cache's own conditional request was handed to a client that sent none: "+hist.name+" fault="+fk, "%s: %s", what, o)
 			return
 		}
+		if o.Err == nil && o.BodyErr != nil && len(faults) == 0 {
+			x.Failf("the body of the returned response cannot be read although nothing failed: "+hist.name, "%s: reading the body failed with %v after %d bytes; %s", what, o.BodyErr, len(o.Body), o)
+			return
+		}
 		originFailed := false
 		for _, c := range o.Calls {
 			if c.Err != nil {
